@@ -189,6 +189,15 @@ class PrimalSageCone(SetMembership):
         for i in self.ech.U_I:
             num_cover = self.ech.cover_counts[i]
             si = str(i)
+            if num_cover > 0 and self.settings['kernel_basis']:
+                idx_set = self.ech.covers[i]
+                mat = (self.alpha[idx_set, :] - self.alpha[i, :]).T
+                if kernel_basis(mat).shape[1] == 0:
+                    # The balance equations only admit nu = 0, so this AGE cone
+                    # is the nonnegative orthant: treat it like an empty cover.
+                    self.ech.covers[i][:] = False
+                    self.ech.cover_counts[i] = 0
+                    num_cover = 0
             if num_cover > 0:
                 var_name = 'nu^{(%s)}_{%s}' % (si, self.name)
                 if self.settings['kernel_basis']:
